@@ -221,7 +221,10 @@ def check_reference_groups(expr):
             rec(n.condition, dict(scope, **{n.variable: id(n)}))
             return
         if c in ('HplFieldAccess', 'HplArrayAccess', 'HplVarReference'):
-            key = repr(_scoped_model(n, scope))
+            # a reference is identified by how it is written: `q[02]` and `q[002]` are two references (the printed form
+            # identifies a reference, C06), like `q[1]` and `q[0 + 1]` - which element they denote is not a matter of typing
+            spelling = tuple(str.__str__(x.token) for x in astx.preorder(n) if astx.cname(x) == 'HplLiteral')
+            key = repr((_scoped_model(n, scope), spelling))
             groups.setdefault(key, []).append(n)
         for k in astx.kids(n):
             rec(k, scope)
